@@ -169,7 +169,7 @@ def refactor(tag, r, sid):
             shutil.copy(f"{d}/{f}", f"{dst}/{f}")
     verdict = "FALSE-ALARM" if any(v["verdict"] == "FALSE-ALARM" for v in alarms.values()) else ("REFUSED" if alarms else "silent")
     engine = sh("git rev-parse --short HEAD", "/verif")[1].strip()
-    prop = re.sub(r"^[RS]", "", tag)
+    prop = "C" + tag[-2:]
     meta = dict(id=sid, property=prop, kind="behaviour-preserving refactoring (independent sub-agent)", confirmed=res,
                 base_commit=sh("git rev-parse --short HEAD", wt)[1].strip(), first_engine=engine + " (+ working tree)", first_verdict=verdict, first_alarms=alarms,
                 verdict=verdict, alarms=alarms, how="in-memory replay of patch.diff on /repo HEAD through all 19 rule sets (tools_try.py)")
